@@ -341,6 +341,19 @@ def run(prog, rep, tier):
     for rid in ("R1.2", "R1.3"):
         for s in sub.rules.get(rid, {}).get("samples", []):
             rep.examined(R62, "%s|%s" % (rid, str(s)[:60]), sample=s)
+    # R6.9: the output is a function of inputs and options only if ties between sources are broken by
+    # something the inputs determine: the pending map is ordered by source index and the selection takes
+    # the first minimum (C01 R1.1), and source indexes follow argument order with sorted directory walks
+    # (C01 R1.4).  A hash map or an unsorted walk makes the order of tied messages (and the colours)
+    # vary from run to run or with the directory's creation history.
+    R69 = rep.rule("R6.9", "ties between sources are broken deterministically (from C01 R1.1, R1.4)")
+    for (rid, key, what, detail) in sub.violations:
+        if rid in ("R1.1", "R1.4"):
+            rep.violation(R69, key.split("|", 1)[1], what)
+    for rid in ("R1.1", "R1.4"):
+        for k_ in sorted(sub.rules.get(rid, {}).get("keys", ())):
+            rep.examined(R69, "%s|%s" % (rid, k_), sample={"rule": rid, "instance": k_})
+    rep.floor("R6.9", 2)
 
     # ------------------------------------------------------------ R6.3
     rc = [c for c in b.live_calls() if c.d.endswith("recv_many_chan")]
